@@ -374,9 +374,13 @@ def check_case(case, rec):
             ok, _ = rec.guard(op, apply, op, z, ft)
             if ok and canon_safe(z) != canon_safe(x) and not wl_equal(x, z) and not in_gap(x) and not in_gap(z) and \
                     not vicinal_n_oxides(x) and not vicinal_n_oxides(m):
+                sig = 'two-donor-cation' if two_donor_cation(x) or two_donor_cation(z) else op
+                if sig == op and op in ('standardize', 'canonicalize', 'canonicalize_kekule', 'fix_resonance') and several_partners(m):
+                    sig = 'two-donor-cation'
+                if sig == op and op == 'neutralize' and several_acid_base_sites(m):
+                    sig = 'several-acid-base-sites'
                 rec.fail('numbering', f'{label}: result {canon_safe(x)!r} vs {canon_safe(z)!r} after renumbering '
-                                      f'(tautomer fixing {"on" if ft else "off"})',
-                         sig='two-donor-cation' if two_donor_cation(x) or two_donor_cation(z) else op)
+                                      f'(tautomer fixing {"on" if ft else "off"})', sig=sig)
                 return
     rec.sample('molecule', s0, cap=5)
 
@@ -445,6 +449,23 @@ def two_donor_cation(m):
             if any(m.atom(k).atomic_number == 6 and m.atom(k).hybridization in (2, 4) for k in m._bonds[n]):
                 donors += 1
     return donors >= 2
+
+
+def several_partners(m):
+    """more than one charge-transfer partner on one side: >= 2 donors (anions, or amine N next to an sp2 carbon) for a cation, or
+    >= 2 cations for a donor - fix_resonance pairs them in path-search order"""
+    cations = sum(1 for _, a in m.atoms() if a.charge > 0 and a.atomic_number in (5, 6, 7, 8, 14, 15, 16, 33, 34, 52))
+    donors = sum(1 for n, a in m.atoms() if a.atomic_number in (5, 6, 7, 8, 14, 15, 16, 33, 34, 52) and (
+        a.charge < 0 or (a.atomic_number == 7 and not a.charge and a.hybridization == 1 and
+                         any(m.atom(k).hybridization in (2, 3, 4) for k in m._bonds[n]))))
+    return (cations >= 1 and donors >= 2) or (cations >= 2 and donors >= 1)
+
+
+def several_acid_base_sites(m):
+    """neutralize() with more candidates on one side than partners on the other (two protonated cations and one usable anion ...)"""
+    acids = sum(1 for _, a in m.atoms() if a.charge > 0 and a.implicit_hydrogens)
+    bases = sum(1 for _, a in m.atoms() if a.charge < 0)
+    return (acids >= 2 and bases >= 1) or (bases >= 2 and acids >= 1)
 
 
 def canon_safe(m):
